@@ -16,6 +16,7 @@ def run(col, configs, tier):
         guarded(col, S.rule_float_siblings, facts)
         guarded(col, S.rule_integer_siblings, facts)
         guarded(col, X.rule_complete_special_returns, facts)
+        guarded(col, X.rule_ok_requires_digits, facts)
         from rules import sep
         guarded(col, sep.rule_components, facts)
         guarded(col, sep.rule_peek_dispatch, facts)
